@@ -209,6 +209,38 @@ def bind_cases():
     return out
 
 
+# object-literal definition forms; keys are forced to collide (x by identifier, string, computed constant, computed variable,
+# shorthand, method, getter, setter; y as a second key; __proto__ both as prototype setter and as computed own key)
+LIT_FORMS = {
+    "ident": "x: 'i'", "string": "'x': 's'", "computed-const": "['x']: 'cc'", "computed-var": "[kx]: 'cv'", "computed-expr": "['' + kx]: 'ce'",
+    "shorthand": "x", "method": "x() { return 'm' }", "computed-method": "[kx]() { return 'cm' }", "getter": "get x() { L.push('get'); return 'g' }",
+    "setter": "set x(v) { L.push('set:' + v) }", "computed-getter": "get [kx]() { L.push('cget'); return 'cg' }",
+    "y-ident": "y: 'yi'", "y-computed": "[ky]: 'yc'", "y-same-var": "[kx + '']: 'x2', y: kx", "proto": "__proto__: P",
+    "proto-computed": "['__proto__']: 'own'", "keyword-key": "if: 'kw', new: 'kw2'", "get-as-name": "get: 'plain-get', set: 'plain-set'",
+}
+
+
+def literal_cases():
+    import itertools
+    out = []
+    names = list(LIT_FORMS)
+    combos = [(a,) for a in names] + list(itertools.product(names, repeat=2))
+    # triples: only those that define x at least twice (the collisions), to keep the space small
+    xs = [n for n in names if not n.startswith("y-") and n not in ("proto", "proto-computed", "keyword-key", "get-as-name")]
+    combos += [c for c in itertools.product(names, repeat=3) if sum(1 for n in c if n in xs) >= 2 and c[0] in xs]
+    for c in combos:
+        if c.count("proto") > 1:
+            continue        # duplicate __proto__ is an early error in V8 and of no interest here
+        lit = "{" + ", ".join(LIT_FORMS[n] for n in c) + "}"
+        src = ("var L = [], P = {inh: 'P'}, kx = 'x', ky = 'y', x = 'sh'; var o = " + lit + "; var r = [];\n"
+               "r.push(Object.keys(o).join('+')); var v = o.x; r.push(typeof v == 'function' ? 'fn:' + v.call(o) : String(v)); "
+               "r.push(String(o.y)); r.push(Object.getPrototypeOf(o) === P ? 'P' : Object.getPrototypeOf(o) === Object.prototype ? 'O' : '?'); "
+               "r.push(String(o.inh)); r.push(Object.prototype.hasOwnProperty.call(o, '__proto__')); r.push(String(o['if']) + String(o.get)); "
+               "try { o.x = 'w'; r.push('w=' + String(o.x)) } catch (e) { r.push('wthrow:' + e.name) } r.push(L.join('/')); r.join()")
+        out.append(("literal " + " , ".join(c) + " :: " + src, {"src": src, "tl": TL}))
+    return out
+
+
 def core_spaces():
     return [
         hist_space("c08_hist_d2", lambda: _hist_cases(G.upto(G.FULL, 2), True), RULE_D2, "depth <= 2, |A| = %d" % len(G.FULL)),
@@ -222,6 +254,11 @@ def core_spaces():
         Space("c08_bind", RUN, bind_cases, oracle="table", batch=60, bound="12 x 11",
               rule="12 bind chains (none, single, double, triple, with partial arguments at each level, primitive this) x 11 call "
                    "forms (plain, with arguments, call, apply, as method, as callback, new, length, name, bound again)"),
+        Space("c08_literal", RUN, literal_cases, oracle="table", batch=100, bound="18 + 18^2 + colliding triples",
+              rule="object literals made of 1-3 definitions from %d forms (identifier, string, computed constant / variable / expression key, "
+                   "shorthand, method, computed method, getter, setter, computed getter, second key, __proto__ as prototype and as computed "
+                   "own key, keyword and get/set as plain names); all singles and pairs, and the triples that define x at least twice: "
+                   "key order, which definition wins, prototype, accessor calls, a write afterwards" % len(LIT_FORMS)),
         Space("c08_call", RUN, lambda: G.call_cases() + G.native_cases(), oracle="table", nontrivial=nontrivial_call,
               agree=agree, batch=60, bound="%d forms x %d kinds x %d probes + natives" % (
                   len(G.CALL_FORMS), len(G.FUNCTION_KINDS), len(G.CALL_PROBES)),
@@ -470,6 +507,20 @@ def signature(sp, cid, payload, exp, obs):
     if sp.name == "c08_bind":
         call = cid.split(" :: ")[0].split(" then ")[1]
         return "bind|" + call, "bound function used as `%s`: %s" % (call, mismatch_kind(exp, obs))
+    if sp.name == "c08_literal":
+        forms = cid.split(" :: ")[0][len("literal "):].split(" , ")
+        e, o = exp.rpartition("|")[2], obs.rpartition("|")[2]
+        fields = ["key order", "value of x", "value of y", "prototype", "inherited read", "own __proto__", "keyword / get-set names",
+                  "write afterwards", "accessor log"]
+        if e.startswith("Rs") and o.startswith("Rs"):
+            ef, of = e[3:-1].split(","), o[3:-1].split(",")
+            bad = [fields[i] for i in range(min(len(ef), len(of), len(fields))) if ef[i] != of[i]] or ["shape"]
+            what = "wrong " + " + ".join(bad)
+        else:
+            what = mismatch_kind(exp, obs)
+        culprit = sorted(set(forms) & {"proto", "proto-computed", "computed-getter", "computed-method", "getter", "setter", "keyword-key",
+                                       "get-as-name", "shorthand", "computed-var", "computed-expr", "computed-const"}) or ["plain"]
+        return "literal|%s|%s" % ("+".join(culprit), what), "object literal with %s definitions: %s" % (" + ".join(culprit), what)
     if sp.name == "c08_call":
         return call_signature(payload, exp, obs)
     h = tuple(payload["h"])
